@@ -207,6 +207,7 @@ def check_composition(spec, ctx):
         return
     viol, stats = S.monitor(spec, trace, want=("C13",))
     ctx.event("requests-checked", stats["requests_checked"])
+    ctx.event("values-checked", stats.get("values_checked", 0))
     nd = sum(1 for l in spec["links"] for a in l[2] if a[0] in hs.DELAYS)
     ctx.nontrivial(nd >= 1 and stats["requests_checked"] >= 5)
     for _p, tag, m, _ev in viol:
